@@ -2,13 +2,14 @@
 package tx
 
 import vhook "github.com/xuperchain/xupercore/verifshim/vhook"
+import vsync "github.com/xuperchain/xupercore/verifshim/vsync"
 
 import (
 	"encoding/json"
 	"errors"
 	"fmt"
 	"math/big"
-	"sync"
+
 	"time"
 
 	"github.com/golang/protobuf/proto"
@@ -41,7 +42,7 @@ type Tx struct {
 	ldb               kvdb.Database
 	unconfirmedTable  kvdb.Database
 	UnconfirmTxAmount int64
-	UnconfirmTxInMem  *sync.Map
+	UnconfirmTxInMem  *vsync.Map
 	AvgDelay          int64
 	ledger            *ledger.Ledger
 	maxConfirmedDelay uint32
@@ -64,7 +65,7 @@ func NewTx(sctx *context.StateCtx, stateDB kvdb.Database) (*Tx, error) {
 		log:               sctx.XLog,
 		ldb:               stateDB,
 		unconfirmedTable:  kvdb.NewTable(stateDB, pb.UnconfirmedTablePrefix),
-		UnconfirmTxInMem:  &sync.Map{},
+		UnconfirmTxInMem:  &vsync.Map{},
 		ledger:            sctx.Ledger,
 		maxConfirmedDelay: DefaultMaxConfirmedDelay,
 	}, nil
